@@ -33,6 +33,7 @@ def rebuilds(ctx, f, n, depth=2) -> bool:
 
 def run(ctx):
     ctx.rule("R08.x", "context-manager model: _batch_call_watchers, batch_call_watchers, discard_events, _syncing and edit_constant interpreted abstractly with the body of the `with` supplied at the `yield` (62 cases: entry state x body ends normally / raises x nesting x queues replaced in the body x Parameter copies made in the body): flag, queues, syncing set and constant flags are, after the block, what they were before; the flush runs iff outermost, after the restore, also when the body raised", floor=1)
+    ctx.rule("R08.r", "update-context exit: _ParametersRestorer.__exit__ interpreted abstractly (3 cases) assigns back every recorded previous value -- also one identical to the current value -- and every remembered reference in one update, and forgets the record, also when that update raises", floor=1)
     ctx.rule("R08.a", "every function that removes or replaces an entry of the refs map rebuilds the ref watchers on the same path "
                       "(_setup_refs, directly or via a callee); a rebuild outside the constructor first unwatches and resets ref_watchers", floor=3)
     ctx.rule("R08.b", "every resolve_ref/resolve_value call in class Parameters that computes a link's dependencies or value passes recursive=<that parameter>.nested_refs", floor=5)
@@ -310,6 +311,8 @@ def run(ctx):
     else:
         ctx.ok("R08.f", up, up.node, "%d call forms (keywords, dict, dict+keywords, pairs, pairs+keywords): the restorer receives the reference of every given linked parameter" % n_f)
 
+    from checks.shared import restorer_model
+    restorer_model(ctx, "R08.r")
     from checks.shared import syncing_set_replaced
     syncing_set_replaced(ctx, "R08.c")
     # ------------------------------------------------------------- R08.g
